@@ -10,6 +10,7 @@ import (
 	rctypes "github.com/rigochain/rigo-go/ctrlers/types"
 	"github.com/rigochain/rigo-go/ctrlers/vm/evm"
 	"github.com/rigochain/rigo-go/genesis"
+	"github.com/rigochain/rigo-go/libs/vhook"
 	"github.com/rigochain/rigo-go/types/bytes"
 	"github.com/rigochain/rigo-go/types/crypto"
 	"github.com/rigochain/rigo-go/types/xerrors"
@@ -299,6 +300,7 @@ func (ctrler *RigoApp) BeginBlock(req abcitypes.RequestBeginBlock) abcitypes.Res
 	ctrler.mtx.Lock()
 	defer ctrler.mtx.Unlock()
 
+	vhook.At("begin/enter")
 	ctrler.nextBlockCtx = rctypes.NewBlockContext(req, ctrler.govCtrler, ctrler.acctCtrler, ctrler.stakeCtrler)
 
 	ev0, xerr := ctrler.govCtrler.BeginBlock(ctrler.nextBlockCtx)
@@ -306,16 +308,19 @@ func (ctrler *RigoApp) BeginBlock(req abcitypes.RequestBeginBlock) abcitypes.Res
 		ctrler.logger.Error("RigoApp", "error", xerr)
 		panic(xerr)
 	}
+	vhook.At("begin/gov")
 	ev1, xerr := ctrler.stakeCtrler.BeginBlock(ctrler.nextBlockCtx)
 	if xerr != nil {
 		ctrler.logger.Error("RigoApp", "error", xerr)
 		panic(xerr)
 	}
+	vhook.At("begin/stake")
 	ev2, xerr := ctrler.vmCtrler.BeginBlock(ctrler.nextBlockCtx)
 	if xerr != nil {
 		ctrler.logger.Error("RigoApp", "error", xerr)
 		panic(xerr)
 	}
+	vhook.At("begin/exit")
 
 	return abcitypes.ResponseBeginBlock{
 		Events: append(ev0, append(ev1, ev2...)...),
@@ -493,6 +498,7 @@ func (ctrler *RigoApp) DeliverTx(req abcitypes.RequestDeliverTx) abcitypes.Respo
 	ctrler.mtx.Lock()
 	defer ctrler.mtx.Unlock()
 
+	vhook.At("deliver/enter")
 	return ctrler.deliverTxSync(req)
 }
 
@@ -507,6 +513,7 @@ func (ctrler *RigoApp) EndBlock(req abcitypes.RequestEndBlock) abcitypes.Respons
 			"height", req.Height)
 	}()
 
+	vhook.At("end/enter")
 	ev0, xerr := ctrler.govCtrler.EndBlock(ctrler.nextBlockCtx)
 	if xerr != nil {
 		ctrler.logger.Error("RigoApp", "error", xerr)
@@ -528,6 +535,7 @@ func (ctrler *RigoApp) EndBlock(req abcitypes.RequestEndBlock) abcitypes.Respons
 		panic(xerr)
 	}
 
+	vhook.At("end/exit")
 	var ev []abcitypes.Event
 	ev = append(ev, ev0...)
 	ev = append(ev, ev1...)
@@ -546,6 +554,7 @@ func (ctrler *RigoApp) Commit() abcitypes.ResponseCommit {
 
 	ctrler.logger.Debug("RigoApp::Commit", "height", ctrler.nextBlockCtx.Height())
 
+	vhook.At("commit/enter")
 	appHash0, ver0, err := ctrler.govCtrler.Commit()
 	if err != nil {
 		panic(err)
@@ -556,6 +565,7 @@ func (ctrler *RigoApp) Commit() abcitypes.ResponseCommit {
 	if err != nil {
 		panic(err)
 	}
+	vhook.At("commit/account")
 	//ctrler.logger.Debug("RigoApp::Commit", "height", ver1, "appHash1", bytes.HexBytes(appHash1))
 
 	appHash2, ver2, err := ctrler.stakeCtrler.Commit()
@@ -578,8 +588,11 @@ func (ctrler *RigoApp) Commit() abcitypes.ResponseCommit {
 	ctrler.nextBlockCtx.SetAppHash(appHash)
 	ctrler.logger.Debug("RigoApp::Commit", "height", ver0, "txs", ctrler.nextBlockCtx.TxsCnt(), "app hash", ctrler.nextBlockCtx.AppHash())
 
+	vhook.At("commit/ledgers-done")
 	ctrler.metaDB.PutLastBlockContext(ctrler.nextBlockCtx)
+	vhook.At("commit/meta-ctx")
 	ctrler.metaDB.PutLastBlockHeight(ver0)
+	vhook.At("commit/meta-height")
 
 	ctrler.lastBlockCtx = ctrler.nextBlockCtx
 	ctrler.nextBlockCtx = nil
